@@ -87,3 +87,13 @@ def run(cx):
     _run_poly(cx)
     # A-POLY: the Jacobian formulas equal the chord-and-tangent law as rational functions
     RPL.a_poly_curve(cx, 'A-POLY', 'gm_sm2', 3)
+
+
+_run_cmp = run
+
+
+def run(cx):
+    from .. import rules_poly as RPL
+    _run_cmp(cx)
+    # I-CMP: the 256-bit comparison, decided over all 81 orderings of corresponding limbs
+    RPL.limb_compare(cx, 'I-CMP', 'gm_sm2::u256::u256_cmp')
